@@ -215,10 +215,16 @@ void COTmrUnlock(void)                              { LockDepth--; if (LockDepth
 /* scripted reaction of the application inside the mode change callback ("modecb <mode> setmode <m>" / "modecb <mode> trigpdo <n>" /
  * "modecb 0 off"): a self-starting device, a device that refuses OPERATIONAL, a status PDO sent on every mode change */
 static int McbMode, McbAct, McbArg, McbDepth;
+static uint32_t IcbIdx, IcbSub, IcbVal;
 static int McbRamFill = -1;    /* "ramfillcb <byte>": on the notification of INITIALISING the application sets its factory defaults (all parameter RAM) */
 void CONmtModeChange(CO_NMT *nmt, CO_MODE mode)
 {
     printf("cb mode %d\n", (int)mode);
+    if (IcbIdx != 0 && mode == CO_INIT) {
+        /* "initcb <idx> <sub> <val>": when it is told that the node initialises the application sets one of its parameters (16 bit) */
+        CO_ERR e = CODictWrWord(&nmt->Node->Dict, CO_DEV(IcbIdx, IcbSub), (uint16_t)IcbVal);
+        printf("cb initwr %x %d\n", IcbIdx, (int)e);
+    }
     if (McbRamFill >= 0 && mode == CO_INIT) {
         for (int g = 0; g < MAXPG; g++) if (Pg[g].used) memset(Pg[g].ram, McbRamFill, Pg[g].pg.Size);
         printf("cb ramfill %d\n", McbRamFill);
@@ -712,6 +718,7 @@ int main(void)
         } else if (!strcmp(c, "tproc")) { COTmrProcess(&Node->Tmr);
         } else if (!strcmp(c, "hbeventcb")) { HecSub = (int)strtol(ARG(1), NULL, 0); HecV1 = argc > 2 ? X(2) : 0; HecV2 = argc > 3 ? X(3) : HecV1;
         } else if (!strcmp(c, "hbchangecb")) { HccSub = (int)U(1); HccV1 = X(2); HccV2 = X(3);
+        } else if (!strcmp(c, "initcb")) { IcbIdx = X(1); IcbSub = argc > 2 ? X(2) : 0; IcbVal = argc > 3 ? U(3) : 0;
         } else if (!strcmp(c, "ramfillcb")) { McbRamFill = (int)strtol(ARG(1), NULL, 0); step = 0;
         } else if (!strcmp(c, "modecb")) { McbMode = (int)U(1); McbAct = !strcmp(ARG(2), "setmode") ? 1 : !strcmp(ARG(2), "trigpdo") ? 2 : 0; McbArg = argc > 3 ? (int)U(3) : 0;
         } else if (!strcmp(c, "setmode")) { CONmtSetMode(&Node->Nmt, (CO_MODE)U(1));
